@@ -115,7 +115,7 @@ type st struct {
 	addOK   map[int][2]int // container -> families (v4,v6) of its last successful add not yet deleted
 	pending map[int]string // tid -> "cniadd c v4 v6" / "cnidel c"
 	rec     record
-	// held: per container, the addresses returned by its successful ADDs since its last DEL attempt
+	// held: per container, the addresses returned by its LAST successful ADD, until its next DEL attempt
 	held map[int]map[[2]int]bool
 }
 
@@ -315,15 +315,31 @@ func (s *st) onEnd(r *ipamkv.Runner, tid int, ctx *ipamkv.ThreadCtx, res *ipamkv
 		if res.Err != nil {
 			after := s.liveSet(3*c + 1)
 			for a := range s.rec.before {
-				if !after[a] {
-					s.fail("failed-add-released-held-address", "a failed CNI ADD released an address the container's handle held before it",
-						map[string]any{"container": c, "block": a[0], "ordinal": a[1]})
+				if !after[a] && !s.held[c][a] {
+					// leftovers of earlier FAILED adds may be cleaned up by anybody: not part of C38
+					s.h.Count("obs:failed-add-released-leftover")
+				}
+			}
+			// a failed dual-stack ADD leaves nothing of ITS OWN behind: when AutoAssign itself reported
+			// no error (half success) and no datastore error was injected into this command, none of
+			// the addresses it was given is still allocated
+			faulted := false
+			for _, stp := range r.Sc.Log[s.rec.start:] {
+				if stp.TID == tid && stp.Fault != ipamkv.FNone {
+					faulted = true
+				}
+			}
+			if s.rec.aaCalled && !s.rec.aaErr && !faulted {
+				for _, a := range s.rec.ret {
+					if after[a] && !s.rec.before[a] {
+						s.fail("failed-add-keeps-own-address", "a failed CNI ADD (one family short, no datastore error) left an address of its own allocated",
+							map[string]any{"container": c, "block": a[0], "ordinal": a[1]})
+					}
 				}
 			}
 		} else {
-			if s.held[c] == nil {
-				s.held[c] = map[[2]int]bool{}
-			}
+			// the addresses of the LAST successful ADD are what the container uses until DEL
+			s.held[c] = map[[2]int]bool{}
 			for _, a := range s.rec.ret {
 				s.held[c][a] = true
 			}
